@@ -837,6 +837,39 @@ class Evaluator:
     def run(self, fi: FunctionInfo, args: Optional[Dict[str, Term]] = None, depth: int = 0, self_cls: Optional[ClassInfo] = None, base_env: Optional[Dict[str, Term]] = None) -> List[Outcome]:
         """Evaluate `fi` with parameters bound to `args` (missing ones become Sym,
         typed by their annotation when it names a package class)."""
+        regs = self._single_dispatch(fi) if fi.node.decorator_list and fi.cls is None else None
+        if regs and not getattr(fi, '_is_raw', False) and fi.params():
+            # @singledispatch: the call goes to the implementation registered for the class of the first argument,
+            # most specific class first; the decorated function itself is the default
+            first = fi.params()[0]
+            given = dict(args or {})
+            c_ = self.ann_class(fi.node.args.args[0].annotation, fi.module) if fi.node.args.args else None
+            x = given.get(first, Sym(first, c_.name if c_ else None))
+            given[first] = x
+            rest = tuple(given.get(p_, Sym(p_)) for p_ in fi.params()[1:])
+            outs_d: List[Outcome] = []
+            neg: Tuple[Guard, ...] = ()
+            order = sorted(regs, key=lambda kc: -len(kc[0].mro()))
+            for k, impl in order:
+                test = Call(Ext('isinstance'), (x, ClassRef(k.name)))
+                st_d = _State(dict(base_env or {}), neg + ((test, True),))
+                val = self.apply(FuncRef(impl.key), (x,) + rest, (), st_d, depth)
+                for g_, leaf in alternatives(val):
+                    if isinstance(leaf, Raises):
+                        outs_d.append(Outcome('raise', leaf.exc, st_d.guards + g_, st_d.effects, st_d.asserts, impl.node.lineno, dict(st_d.env), st_d.trace))
+                    else:
+                        outs_d.append(Outcome('return', leaf, st_d.guards + g_, st_d.effects, st_d.asserts, fi.node.lineno, dict(st_d.env), st_d.trace))
+                neg = neg + ((test, False),)
+            import copy as _copy
+            raw = getattr(fi, '_dispatch_default', None)
+            if raw is None:
+                node2 = _copy.copy(fi.node)
+                raw = FunctionInfo(fi.name, fi.qualname + '@default', fi.module, node2, fi.cls, fi.kind, list(fi.decorators))
+                raw._is_raw = True
+                fi._dispatch_default = raw
+            for o in self.run(raw, given, depth, self_cls, base_env):
+                outs_d.append(Outcome(o.kind, o.value, neg + o.guards, o.effects, o.asserts, o.lineno, o.env, o.trace))
+            return outs_d
         wrapped = self._decorated_form(fi, depth) if fi.node.decorator_list else None
         if wrapped is not None:
             # @decorator def f(...): calling f is calling what decorator(f) returned
@@ -984,6 +1017,26 @@ class Evaluator:
         branch = ast.copy_location(ast.If(test=w.test, body=list(head) + [ret], orelse=[]), w)
         ast.fix_missing_locations(branch)
         return list(body[:wi]) + [branch] + list(body[wi + 1:])
+
+    def _single_dispatch(self, fi: FunctionInfo):
+        """[(class, implementation)] registered with @fi.register(Class) when fi is a functools.singledispatch function"""
+        def is_sd(d):
+            return (isinstance(d, ast.Name) and d.id == 'singledispatch') or (isinstance(d, ast.Attribute) and d.attr == 'singledispatch')
+        if not any(is_sd(d) for d in fi.node.decorator_list):
+            return None
+        cached = getattr(fi, '_dispatch_regs', None)
+        if cached is not None:
+            return cached
+        regs = []
+        for g in fi.module.functions.values():
+            for d in g.node.decorator_list:
+                if isinstance(d, ast.Call) and isinstance(d.func, ast.Attribute) and d.func.attr == 'register' and isinstance(d.func.value, ast.Name) \
+                        and d.func.value.id == fi.name and len(d.args) == 1 and isinstance(d.args[0], ast.Name):
+                    r = self.m.resolve_name(fi.module, d.args[0].id)
+                    if r and r[0] == 'class':
+                        regs.append((r[1], g))
+        fi._dispatch_regs = regs
+        return regs
 
     def _decorated_form(self, fi: FunctionInfo, depth: int):
         """(pseudo function, closure environment) of the wrapper that the package-defined decorators of fi return, or
